@@ -925,6 +925,14 @@ G10_MAINS = {
     # body that runs takes them from args first, from the context second
     "include-inheriting-target": ('[<%include file="inh.html"/>|<%include file="inh.html" args="pc=\'A\'"/>]', "[B(CTX|I)|B(A|I)]"),
     "include_file-inheriting-target": ("[<% local.include_file('inh.html') %>|<% local.include_file('inh.html', pc='A') %>]", "[B(CTX|I)|B(A|I)]"),
+    # an import list mixing * with an explicit name that * does not cover (a def the namespace's template inherits;
+    # an underscore name of a module), and names reached through the namespace's own inheritance only
+    "star-plus-inherited-name": ('<%namespace file="libinh.html" import="*, based"/>[${own()}${based()}]', "[WQ]"),
+    "inherited-name-only": ('<%namespace file="libinh.html" import="based"/>[${based()}]', "[Q]"),
+    "name-plus-star": ('<%namespace file="libinh.html" import="based, *"/>[${own()}${based()}]', "[WQ]"),
+    # a module namespace whose module is a top-level one that nothing has imported yet (dropped from sys.modules first)
+    "module-toplevel": ('<%namespace name="m" module="c07_topmod"/>[${m.pub("a")}]', "[Pa]"),
+    "module-toplevel-star-underscore": ('<%namespace module="c07_topmod" import="*, _fmt"/>[${pub("a")}${_fmt("b")}]', "[PaFb]"),
     "star-attr-probe": ('<%namespace name="q" file="lib.html"/>[${hasattr(q, "extra")}${hasattr(q, "more")}${sorted(k for k in ("libdef", "other", "extra", "more", "lb") if hasattr(q, k))}]', "[FalseFalse['lb', 'libdef', 'other']]"),
 }
 
@@ -937,14 +945,33 @@ def g10_cases(tier):
                 yield {"grid": "g10", "backing": backing, "order": [a, b, a]}
 
 
+_TOPMOD = {}
+
+
+def _topmod():
+    """a top-level module on sys.path that no one has imported: written once per process, forgotten before every case"""
+    import sys
+
+    if _TOPMOD.get("pid") != os.getpid():
+        d = core.scratch_dir("c07mod-")
+        with open(os.path.join(d, "c07_topmod.py"), "w") as f:
+            f.write("def pub(context, a):\n    return 'P' + a\n\n\ndef _fmt(context, b):\n    return 'F' + b\n")
+        _TOPMOD.update(pid=os.getpid(), dir=d)
+    if _TOPMOD["dir"] not in sys.path:
+        sys.path.insert(0, _TOPMOD["dir"])
+    sys.modules.pop("c07_topmod", None)
+
+
 def g10_execute(c):
     from mako.lookup import TemplateLookup
 
     files = {"/d/lib.html": G10_LIB, "/d/lib2.html": '<%def name="two()">2</%def>', "/d/inh.html": '<%inherit file="ibase2.html"/>I',
+             "/d/libinh.html": '<%inherit file="libbase.html"/><%def name="own()">W</%def>', "/d/libbase.html": '<%def name="based()">Q</%def>${next.body()}',
              "/d/ibase2.html": "<%page args=\"pc='dflt'\"/>B(${pc}|${next.body()})", "/d/ibase.html": '<%namespace name="q" file="lib.html" inheritable="True"/>${next.body()}'}
     for k, (src, _e) in G10_MAINS.items():
         files["/d/" + k + ".html"] = src
     wd = None
+    _topmod()
     try:
         if c["backing"] == "put":
             lk = TemplateLookup()
